@@ -25,6 +25,7 @@ def run(ctx, L, tier):
     P.bytes_default(ctx, L)
     mutator_escapes(ctx, L)
     check_returns(ctx, L)
+    P.presence_by_identity(ctx, L)
     from . import c11
     c11.ownership(ctx, L)       # extend()/copy_from must not alias: a later mutation of one message would show in the other
     c11.ladder(ctx, L)
